@@ -4,6 +4,9 @@ import ArmiVerif.Model.Hex
 import ArmiVerif.Model.Grid
 import ArmiVerif.Model.Schedule
 import ArmiVerif.Model.Nuclide
+import ArmiVerif.Model.XsGroup
+import ArmiVerif.Model.Cccc
+import ArmiVerif.Model.SnapStore
 open ArmiVerif ArmiVerif.Proto ArmiVerif.PyInt
 
 /-
@@ -39,6 +42,22 @@ def modelL (name : String) (a : List (List Int)) : Option String :=
       match natList? bs with
       | some l => if 0 ≤ t then
           some (match Schedule.stepOfCum l t.toNat with | none => "reject" | some p => showNatPair p)
+        else some "out-of-domain"
+      | none => some "out-of-domain"
+  | "CrossSectionGroupManager.getXSTypeNumberFromLabel", [l] =>
+      match natList? l with
+      | some cs => some (match XsGroup.labelToNumber cs with | none => "reject" | some n => PyShow.sh ((n : Nat) : Int))
+      | none => some "out-of-domain"
+  | "CrossSectionGroupManager.getXSTypeLabelFromNumber", [[n]] =>
+      if 0 ≤ n then
+        some (match XsGroup.numberToLabel n.toNat with
+              | none => "reject" | some cs => PyShow.sh (cs.map (fun (c : Nat) => (c : Int))))
+      else some "out-of-domain"
+  | "Cccc.getBlockBandwidth", [[m], [nintj], [nblok]] => some (showRaise (ArmiVerif.Cccc.getBlockBandwidth m nintj nblok))
+  | "Database.getH5GroupName", [[c], [n], l] =>
+      match natList? l with
+      | some cs => if 0 ≤ c ∧ c < 100 ∧ 0 ≤ n ∧ n < 100 then
+          some (PyShow.sh ((ArmiVerif.SnapStore.name ⟨c.toNat, n.toNat, cs⟩).map (fun (x : Nat) => (x : Int))))
         else some "out-of-domain"
       | none => some "out-of-domain"
   | "Utils.getNodesPerCycle", [bs] =>
